@@ -352,6 +352,108 @@ def _lib_state_slots():
     return out
 
 
+def _lib_functions():
+    """Every function object the library defines: module-level functions and the functions behind methods, properties,
+    static / class methods of its classes (wrappers are followed through __wrapped__)."""
+    import sys
+    import types
+    seen, out = set(), []
+
+    def add(f):
+        depth = 0
+        while f is not None and depth < 6:
+            if isinstance(f, (staticmethod, classmethod)):
+                f = f.__func__
+                continue
+            if isinstance(f, property):
+                for g in (f.fget, f.fset, f.fdel):
+                    add(g)
+                return
+            if id(f) in seen:
+                return
+            seen.add(id(f))
+            if hasattr(f, 'cache_clear') or isinstance(f, types.FunctionType):
+                out.append(f)
+            f = getattr(f, '__wrapped__', None)
+            depth += 1
+    for modname in _LIB_MODULES:
+        mod = sys.modules.get(modname)
+        if mod is None:
+            continue
+        for v in list(vars(mod).values()):
+            if isinstance(v, types.ModuleType):
+                continue
+            try:
+                home = getattr(v, '__module__', None)
+                cached = hasattr(v, 'cache_clear')
+            except Exception:      # noqa
+                continue
+            if isinstance(v, type) and home == modname:
+                for a in list(vars(v).values()):
+                    add(a)
+            elif home == modname or cached:
+                add(v)
+    return out
+
+
+_PRISTINE_FUNCS = None
+_LIB_FUNCS = None
+
+
+def _snapshot_functions():
+    """Mutable state hidden in function objects: containers captured in closures (a memo dict) and mutable default
+    arguments.  Their pristine contents are remembered so that every execution starts from them."""
+    import copy
+    snap = []
+    for f in _lib_functions():
+        for i, cell in enumerate(getattr(f, '__closure__', None) or ()):
+            try:
+                v = cell.cell_contents
+            except ValueError:
+                continue
+            if isinstance(v, (dict, list, set)):
+                try:
+                    snap.append((v, copy.deepcopy(v)))
+                except Exception:      # noqa
+                    pass
+        for v in list(getattr(f, '__defaults__', None) or ()) + list((getattr(f, '__kwdefaults__', None) or {}).values()):
+            if isinstance(v, (dict, list, set)):
+                try:
+                    snap.append((v, copy.deepcopy(v)))
+                except Exception:      # noqa
+                    pass
+    return snap
+
+
+def _reset_functions():
+    """lru_cache-style caches are cleared, captured containers and mutable defaults get their pristine contents back (in
+    place: the function keeps referring to the same object)."""
+    import copy
+    global _PRISTINE_FUNCS
+    if _PRISTINE_FUNCS is None:
+        _PRISTINE_FUNCS = _snapshot_functions()
+    global _LIB_FUNCS
+    if _LIB_FUNCS is None:
+        _LIB_FUNCS = [f for f in _lib_functions() if hasattr(f, 'cache_clear')]
+    for f in _LIB_FUNCS:
+        clear = getattr(f, 'cache_clear', None)
+        if clear is not None:
+            try:
+                clear()
+            except Exception:      # noqa
+                pass
+    for live, pristine in _PRISTINE_FUNCS:
+        fresh = copy.deepcopy(pristine)
+        if isinstance(live, dict):
+            live.clear()
+            live.update(fresh)
+        elif isinstance(live, list):
+            live[:] = fresh
+        else:
+            live.clear()
+            live |= fresh
+
+
 def snapshot_library():
     """Remember the pristine module-level and class-level data of the library (taken right after import)."""
     global _PRISTINE
@@ -379,6 +481,7 @@ def reset_library():
     import copy
     if _PRISTINE is None:
         snapshot_library()
+    _reset_functions()
     known = set()
     for owner, name, val, mutable in _PRISTINE:
         known.add((id(owner), name))
